@@ -392,6 +392,12 @@ func (r *CPUSuppress) adjustByCPUSet(cpusetQuantity *resource.Quantity, nodeCPUI
 		}
 	}
 
+	if len(lsrCpus)+len(lsCpus) == 0 {
+		// every cpu is reserved, system-exclusive or owned by LSE pods: nothing can be handed to BE.
+		klog.Warningf("suppressBECPU skipped, no cpu is eligible for best-effort pods")
+		return
+	}
+
 	// set the number of cpuset cpus no less than 2
 	cpus := int32(math.Ceil(float64(cpusetQuantity.MilliValue()) / 1000))
 	if cpus < beMinCPUSetCores {
